@@ -87,12 +87,27 @@ Theorem C18_fragmentation_enc_no_panic : forall p, FragCmds.enc p <> Panic.
 Proof. exact FragCmdsProofs.enc_no_panic. Qed.
 Print Assumptions C18_fragmentation_enc_no_panic.
 
-(* the last-position restriction cannot be dropped *)
-Theorem C18_fragmentation_data_fragment_only_last :
-  exists cs bs, FragCmds.cmds_enc cs = Ok bs /\ FragCmds.cmds_dec false bs <> Ok cs
-    /\ forallb (FRW.wf_cmd false) cs = true.
+(* the same at full strength over all sequences of individually well-formed commands, with
+   the one exception spelled out (known finding C18-5: the wire format gives a DataFragment no
+   length, it extends to the end of the payload) ... *)
+Theorem C18_fragmentation_stream_or_known : forall up cs, forallb (FRW.wf_cmd up) cs = true ->
+  (exists bs, FragCmds.cmds_enc cs = Ok bs
+     /\ length bs = fold_right Nat.add O (map FragCmds.cmd_size cs)
+     /\ bs = FRW.stream_bytes cs
+     /\ FragCmds.cmds_dec up bs = Ok cs)
+  \/ FRW.data_fragment_not_last cs = true.
+Proof. exact FragCmdsProofs.stream_roundtrip_or_known. Qed.
+Print Assumptions C18_fragmentation_stream_or_known.
+
+(* ... and the exception is real: the audit's input is encoded without error and decoded as
+   a single, longer DataFragment *)
+Theorem C18_fragmentation_data_fragment_not_last_refuted :
+  exists cs bs, forallb (FRW.wf_cmd false) cs = true /\ FRW.data_fragment_not_last cs = true
+    /\ FragCmds.cmds_enc cs = Ok bs /\ bs = [0x08; 0x02; 0x40; 0xaa; 0xbb; 0x01; 0x03]
+    /\ FragCmds.cmds_dec false bs = Ok [(8, Some (FragCmds.DataFragment 1 2 [0xaa; 0xbb; 0x01; 0x03]))]
+    /\ FragCmds.cmds_dec false bs <> Ok cs.
 Proof. exact FragCmdsProofs.data_fragment_not_last. Qed.
-Print Assumptions C18_fragmentation_data_fragment_only_last.
+Print Assumptions C18_fragmentation_data_fragment_not_last_refuted.
 
 (* ---- firmware management (TS006) --------------------------------------- *)
 (* the zero-length requests demand an exact length at payload level; the
